@@ -119,6 +119,24 @@ fn tiny_programs() -> Vec<Case> {
         .collect()
 }
 
+/// Gives two or three patterns of one mode the same token type (keyword lists do that).
+pub fn share_token_type(d: &mut Dec, modes: &mut [ModeSpec]) {
+    let mi = d.below(modes.len());
+    let n = modes[mi].pats.len();
+    if n < 2 {
+        return;
+    }
+    let i = d.below(n);
+    for _ in 0..1 + d.below(2) {
+        let j = d.below(n);
+        if j != i {
+            modes[mi].pats[j].tt = modes[mi].pats[i].tt;
+        }
+    }
+    // transitions stay sorted and distinct: they are keyed by token type, which did not change
+    // for the table; entries for a vanished type are harmless
+}
+
 pub fn gen_program(d: &mut Dec, thorough: bool) -> Case {
     let p = GenParams {
         max_pats: 4,
@@ -144,6 +162,29 @@ pub fn gen_program(d: &mut Dec, thorough: bool) -> Case {
         };
         modes[mi].pats[pi].rx = crate::rx::Rx::Concat(vec![modes[mi].pats[pi].rx.clone(), rep]);
     }
+    if d.chance(24) {
+        // a lookahead pattern that can match the empty string (legal; its automaton must still not
+        // accept the empty string)
+        let mi = d.below(modes.len());
+        let pi = d.below(modes[mi].pats.len());
+        let mut budget = 6;
+        let depth = d.below(2);
+        let body = gen::gen_rx(d, &p, depth, &mut budget);
+        let rx = if crate::rx::nullable(&body) {
+            body
+        } else if d.bool() {
+            crate::rx::Rx::Repeat(Box::new(body), 0, None)
+        } else {
+            crate::rx::Rx::Repeat(Box::new(body), 0, Some(1))
+        };
+        modes[mi].pats[pi].la = Some(LaSpec {
+            positive: d.bool(),
+            rx,
+        });
+    }
+    if d.chance(20) {
+        share_token_type(d, &mut modes);
+    }
     Case {
         modes,
         ..Case::default()
@@ -153,6 +194,16 @@ pub fn gen_program(d: &mut Dec, thorough: bool) -> Case {
 fn program_features(case: &Case, st: &mut CaseStats) {
     let pats: Vec<&PatSpec> = case.modes.iter().flat_map(|m| m.pats.iter()).collect();
     st.flag("nullable_pattern", pats.iter().any(|p| rx::nullable(&p.rx)));
+    st.flag(
+        "nullable_lookahead",
+        pats.iter().any(|p| p.la.as_ref().is_some_and(|l| rx::nullable(&l.rx))),
+    );
+    st.flag(
+        "token_type_shared_within_a_mode",
+        case.modes.iter().any(|m| {
+            m.pats.iter().enumerate().any(|(i, p)| m.pats[..i].iter().any(|q| q.tt == p.tt))
+        }),
+    );
     st.flag(
         "empty_alternative",
         pats.iter().any(|p| rx::has_empty_alternative(&p.rx)),
@@ -176,7 +227,7 @@ impl Check for C02 {
         "translation_validation"
     }
     fn rule(&self) -> &'static str {
-        "program = list of modes (1-4 patterns each, lookaheads of both polarities) from the generator, the bounded-exhaustive tiny pattern pairs, and the repository corpora (tests/data/*.json, benches/veryl_modes.json, README list) translated through regex-syntax; per program the equality 'token types accepted by the compiled automaton after w = token types whose pattern matches w' is decided for ALL non-empty strings w by a breadth-first exploration of the product of the compiled automaton (sets of states, from the feature-gated dump) with the Brzozowski-derivative terms of the source patterns over the alphabet atoms (classes of scalar values with identical membership in every registered class of the scanner, measured with the scanner's own predicate on all 1 112 064 scalar values, and in every class of the source patterns); the same for each lookahead automaton; also: start state not accepting, class ids registered; a difference yields a shortest witness which is confirmed by direct simulation on the witness string and by the set-based matcher; non-trivial = program with >= 2 patterns in a mode whose languages overlap (a reachable product state accepts two token types), or with a nullable pattern, an empty alternative, a counted repetition"
+        "program = list of modes (1-4 patterns each, lookaheads of both polarities, ~9% with a nullable lookahead pattern, ~8% with a token type shared by several patterns of a mode) from the generator, the bounded-exhaustive tiny pattern pairs, and the repository corpora (tests/data/*.json, benches/veryl_modes.json, README list) translated through regex-syntax; per program the equality 'token types accepted by the compiled automaton after w = token types whose pattern matches w' is decided for ALL non-empty strings w by a breadth-first exploration of the product of the compiled automaton (sets of states, from the feature-gated dump) with the Brzozowski-derivative terms of the source patterns over the alphabet atoms (classes of scalar values with identical membership in every registered class of the scanner, measured with the scanner's own predicate on all 1 112 064 scalar values, and in every class of the source patterns); the same for each lookahead automaton; also: start state not accepting, class ids registered; a difference yields a shortest witness which is confirmed by direct simulation on the witness string and by the set-based matcher; non-trivial = program with >= 2 patterns in a mode whose languages overlap (a reachable product state accepts two token types), or with a nullable pattern, an empty alternative, a counted repetition"
     }
     fn assumptions(&self) -> Vec<String> {
         vec![
@@ -215,8 +266,17 @@ impl Check for C02 {
         let judged = judged_modes(case);
         let is_corpus = case.extra.get("corpus").is_some();
         if !is_corpus {
-            if let Err(r) = domain_ok(case) {
+            if let Err(r) = domain_ok_structural(case) {
                 return Ok(discard(r));
+            }
+            // a token type shared by several patterns is fine for the language equality, but its
+            // lookahead would not have one defining pattern
+            for m in &case.modes {
+                for (i, p) in m.pats.iter().enumerate() {
+                    if m.pats[..i].iter().any(|q| q.tt == p.tt && (q.la.is_some() || p.la.is_some())) {
+                        return Ok(discard("discard_shared_type_with_lookahead"));
+                    }
+                }
             }
         }
         let mut st = CaseStats::default();
@@ -491,7 +551,7 @@ impl Check for C03 {
             return Ok(discard("discard_no_mode"));
         }
         if case.extra.get("corpus").is_none() {
-            if let Err(r) = domain_ok(case) {
+            if let Err(r) = domain_ok_structural(case) {
                 return Ok(discard(r));
             }
         }
